@@ -34,8 +34,9 @@ class Caller:
 
 
 class Sched:
-    def __init__(self, choices, chunks=2, stuck_s=20.0):
+    def __init__(self, choices, chunks=2, stuck_s=20.0, segments=None):
         self.choices = list(choices)
+        self.segments = [list(x) for x in segments] if segments is not None else None
         self.chunks = chunks
         self.callers = []
         self.back = threading.Semaphore(0)
@@ -102,7 +103,23 @@ class Sched:
                 for c in blocked:
                     c.state = 'ready'
                 runnable = blocked
-            choice = self.choices[k] if k < len(self.choices) else 0
+            if self.segments is not None:
+                # preemption-bounded form: run caller seg[0] for seg[1] steps (as long as it is runnable), then the next
+                while self.segments and (self.segments[0][1] <= 0 or
+                                         self.callers[self.segments[0][0] % len(self.callers)].state == 'done'):
+                    self.segments.pop(0)
+                pick = None
+                if self.segments:
+                    want = self.segments[0][0] % len(self.callers)
+                    for i, rc in enumerate(runnable):
+                        if rc.idx == want:
+                            pick = i
+                            self.segments[0][1] -= 1
+                    if pick is None:
+                        self.segments.pop(0)  # the wanted caller waits for a lock: move on
+                choice = pick if pick is not None else 0
+            else:
+                choice = self.choices[k] if k < len(self.choices) else 0
             k += 1
             c = runnable[choice % len(runnable)]
             self.choice_log.append((len(runnable), choice % len(runnable)))
